@@ -403,22 +403,32 @@ func checkC08(c *Ctx) {
 		}
 		// controller order: in handleEvent, the call whose argument is evt.Added vs evt.Removed
 		var ca, cr ssa.Instruction
-		eachInstr(handle, func(_ *ssa.BasicBlock, _ int, in ssa.Instruction) {
-			cc := callOf(in)
-			if cc == nil {
-				return
+		// in the event switch itself, or in the per-event handler it calls
+		for _, hf := range append([]*ssa.Function{handle}, staticCalleesDeep(handle, 2)...) {
+			if hf.Blocks == nil || hf.Pkg == nil || hf.Pkg != handle.Pkg || (ca != nil && cr != nil) {
+				continue
 			}
-			for _, a := range cc.Args {
-				if f, _ := loadedField(a); f != nil && strings.HasSuffix(ownerOf(p, f), "SvcEndpointEvent") {
-					if f.Name() == "Added" {
-						ca = in
-					}
-					if f.Name() == "Removed" {
-						cr = in
+			var fa, fr ssa.Instruction
+			eachInstr(hf, func(_ *ssa.BasicBlock, _ int, in ssa.Instruction) {
+				cc := callOf(in)
+				if cc == nil {
+					return
+				}
+				for _, a := range cc.Args {
+					if f, _ := loadedField(a); f != nil && strings.HasSuffix(ownerOf(p, f), "SvcEndpointEvent") {
+						if f.Name() == "Added" {
+							fa = in
+						}
+						if f.Name() == "Removed" {
+							fr = in
+						}
 					}
 				}
+			})
+			if fa != nil && fr != nil {
+				ca, cr = fa, fr
 			}
-		})
+		}
 		if ca == nil || cr == nil {
 			c.Fail("R3", "controller applies both lists", handle.Pos(), "the controller does not apply both the Added and the Removed list of an endpoint event")
 			return
